@@ -21,6 +21,16 @@ def scenario(rng, again=None):
     sc = dict(msgs=msgs, hook=rng.choice(('none', 'none', 'sending', 'received', 'error', 'all')),
               stalls=rng.choice((0, 0, 1, 2)), drops=rng.choice((0, 0, 0, 1)), seed=rng.randrange(10 ** 9),
               put_hook=rng.random() < 0.3, order=rng.choice((1, 7)))
+    if rng.random() < 0.12:
+        # segmented messages on both sides of a reconnect: what the first one left in the correlator (accepted, waiting for
+        # receipts; or unanswered) is still there when the next one is segmented on the new connection
+        t_drop = round(rng.uniform(2.0, 5.0), 3) + 0.0002
+        msgs = [dict(at=round(rng.uniform(0.3, t_drop - 0.8), 3), log='L1', seg=True, react=rng.choice(('ok', 'ok', 'silent'))),
+                dict(at=round(t_drop + rng.uniform(1.5, 3.0), 3), log='L2', seg=True, react=rng.choice(('ok', 'ok', 'reject'))),
+                dict(at=round(t_drop + rng.uniform(3.5, 5.0), 3), log='L3', seg=rng.random() < 0.5, react='ok')]
+        sc = dict(msgs=msgs, hook='none', stalls=0, drops=0, drop_at=[t_drop], seed=rng.randrange(10 ** 9), put_hook=False,
+                  order=rng.choice((1, 7)))
+        return sc
     if again or (again is None and rng.random() < 0.25):
         # the application queues a message object a second time (a retry after its outcome), or a clone of an object
         # that has been sent already (clone() copies the sequence number the first transmission left in it)
@@ -174,6 +184,8 @@ def run(sc):
             s.at(t0 + rng.choice((0.3, 1.0)), lambda: [c.stall(False) for c in s.smsc.conns])
         for _ in range(sc['drops']):
             s.at(round(rng.uniform(1.0, 12.0), 3) + 0.0002, lambda: s.smsc.conns and s.smsc.conns[-1].feed_eof())
+        for t_d in sc.get('drop_at', ()):
+            s.at(t_d, lambda: s.smsc.conns and s.smsc.conns[-1].feed_eof())
         if sc.get('unknown'):
             utext = 'id:nosuchid sub:001 dlvrd:001 submit date:2501011200 done date:2501011201 stat:DELIVRD err:000 text:x'
             ub = b'\x00' * 7 + b'\x04' + b'\x00' * 6 + b'\x01\x00' + bytes([len(utext)]) + utext.encode()
@@ -394,7 +406,7 @@ def case_of(sc, which='ledger'):
         fail, kind = predicate14(sc, ev), None
     else:
         fail, kind = predicate(sc, ev)
-    sig = ('session-ledger', sc['hook'], sc['stalls'], sc['drops'], sc['put_hook'],
+    sig = ('session-ledger', sc['hook'], sc['stalls'], sc['drops'] + len(sc.get('drop_at', ())), sc['put_hook'],
            tuple(sorted({(m['react'], m['seg']) for m in sc['msgs']}))[:4], (sc.get('again') or {}).get('mode'))
     pub = {k: v for k, v in sc.items() if not k.startswith('_')}
     line = '# session-ledger %r' % (pub,)
